@@ -133,13 +133,18 @@ def try_replay(pid, fn, tag, failed_obligations, repo, verif):
     if find_concretiser(fn) is None:
         return {"confirmed": False, "why": "no concretiser for " + fn}
     tags = set(tag.split(","))
+    # an untagged obligation (loop invariant, frame, callee precondition) supports the function's tagged clauses:
+    # its failure is confirmed on the real code when some clause of this property fails there
+    supporting = not any(re.match(r"C\d\d", t) for t in tags)
     attempts = []
     for o in (failed_obligations[:4] or [{"path": 0, "model": ""}]):
         model = parse_model(o.get("model", ""))
         r = run_one(fn, model, repo, verif)
         attempts.append({"path": o["path"], "model": model, "run": r})
-        if r and r["result"] and r["result"].get("realisable") and tags & set(r["result"].get("failed_clauses", {}).keys()):
-            return {"confirmed": True, "attempts": attempts, "failed_clauses_on_real_code": r["result"]["failed_clauses"]}
+        fc = (r and r["result"] and r["result"].get("realisable") and r["result"].get("failed_clauses")) or {}
+        if tags & set(fc.keys()) or (supporting and any(k.startswith(pid) for k in fc)):
+            return {"confirmed": True, "attempts": attempts, "failed_clauses_on_real_code": fc,
+                    "via": "supporting obligation (%s): clauses of %s fail on the real code" % (tag, pid) if supporting and not (tags & set(fc.keys())) else "the failed clause itself fails on the real code"}
     return {"confirmed": False, "attempts": attempts}
 
 
